@@ -61,7 +61,7 @@ def draw_call(rng):
         tk = "path"
     c["target"] = tk
     # region
-    rk = rng.choice(["none", "none", "none", "full", "aligned", "aligned", "misaligned", "wrong_shape"])
+    rk = rng.choice(["none", "none", "none", "full", "aligned", "aligned", "misaligned", "wrong_shape", "overhang"])
     if tk in ("path", "group"):
         rk = "none"
     c["region"] = rk
@@ -75,7 +75,7 @@ def complete_target_geometry(c, rng):
         c["pairs"] = "single"
     # geometry of an existing target
     if tk.startswith("existing") or tk == "sharded":
-        if rk in ("aligned", "misaligned", "wrong_shape"):
+        if rk in ("aligned", "misaligned", "wrong_shape", "overhang"):
             tshape = [d + rng.randint(1, 6) for d in shape]
         else:
             tshape = list(shape)
@@ -111,6 +111,23 @@ def complete_target_geometry(c, rng):
             if rk == "aligned":
                 # python-style open ends now and then
                 c["open_ends"] = rng.random() < 0.3
+        elif rk == "overhang":
+            # chunk-aligned start, stop beyond the end of the target on one axis; source has the unclipped extent
+            unit = c.get("tshards", c["tchunks"])
+            j = rng.randrange(nd)
+            sl = []
+            for k, (d, t, u) in enumerate(zip(shape, tshape, unit)):
+                if k == j:
+                    cands = [s for s in range(0, t + 1) if s % u == 0 and s + d > t and (s + d) % u == 0]
+                    if not cands:
+                        cands = [s for s in range(0, t + 1) if s % u == 0 and s + d > t]
+                    s0 = rng.choice(cands) if cands else (t // u) * u
+                    sl.append([s0, s0 + d])
+                else:
+                    cands = [s for s in range(0, t - d + 1) if s % u == 0 and ((s + d) % u == 0 or s + d == t)]
+                    s0 = rng.choice(cands) if cands else 0
+                    sl.append([s0, s0 + d])
+            c["region_slices"] = sl
         elif rk == "full":
             c["region_slices"] = [[None, None] for _ in shape]
     return c
